@@ -32,7 +32,8 @@ BUILD_FNS = ("process_dom_node", "table_to_render_tree", "tbody_to_render_tree",
              "render_tree_to_string", "RenderTree::render_with_context")
 IGNORED = {"head", "script", "style", "link", "meta", "hr"}
 SEQ_TYPES = ("RenderNode", "RenderTableRow", "RenderTableCell", "SubRenderer<", "RenderLine<", "TaggedLine<", "TaggedLineElement<",
-             "RenderInput")  # RenderInput: the DOM children still to be converted (their order is document order)
+             "RenderInput",  # RenderInput: the DOM children still to be converted (their order is document order)
+             "Rc<markup5ever_rcdom::Node>")  # the DOM's own child lists (vendored TreeSink)
 ORDER_OPS = ("rev", "reverse", "sort", "sort_by", "sort_by_key", "sort_unstable", "sort_unstable_by", "sort_unstable_by_key",
              "swap", "swap_remove", "pop", "pop_front", "pop_back", "push_front", "insert", "remove", "rotate_left",
              "rotate_right", "dedup", "retain", "drain", "split_off", "truncate")
@@ -46,6 +47,10 @@ ORDER_OK = {
     (RTRAIT + "append_columns_with_borders", "pop"): "removes a trailing border line of a nested table (guarded by `if let Some(Line)`)",
     ("insert_child", "insert"): "inserts the marker / generated content at index 0 (ChildPosition::Start)",
     ("tree_map_reduce::{closure}", "pop"): "returns the single result of the root",
+    ("<markup5ever_rcdom::Node as std::ops::Drop>::drop", "pop"): "iterative destruction of a subtree (no rendering involved)",
+    ("markup5ever_rcdom::remove_from_parent", "remove"): "upstream TreeSink: removes the node at the index get_parent_and_index found (enumerate().find by pointer identity)",
+    ("<markup5ever_rcdom::RcDom as html5ever::tree_builder::TreeSink>::append_before_sibling", "insert"): "upstream TreeSink: inserts at the sibling's index",
+    ("<markup5ever_rcdom::SerializableHandle as html5ever::serialize::Serialize>::serialize", "rev"): "serialisation work list (not used by rendering)",
 }
 
 
